@@ -397,7 +397,8 @@ PROPS["C01"] = Prop(
                "<backend>::core::{local,public}::{nonce, dangerous_seal_with_nonce, unseal, random, unsealing_key}"],
     bounds={"quick": "per backend: local |m|=3 |f|=2 (|a|=1 where supported), public same; L3 shapes nonce 2/msg 1/out 3; unwind 150 with unwinding assertions",
             "thorough": "adds |m| in {0,17,33} (AES block boundaries), empty footer/assertion, L3 shapes with footer/assertion, () footer cases"},
-    outside=["payloads longer than 33 bytes / more than one 64-byte ChaCha block (model bound); the quantifier's 1 MiB payloads",
+    outside=["paseto-v3-aws-lc: verification of public tokens and PKE are not reached (symbolic execution of the FFI wrappers' verify side does not finish, DESIGN.md 7.6); paseto-v1 public tokens and PKE (RSA is not modelled)",
+             "payloads longer than 33 bytes / more than one 64-byte ChaCha block (model bound); the quantifier's 1 MiB payloads",
              "the real primitives (only their contract is modelled); byte-level agreement between libraries"],
     models=L2_MODELS, assumptions=L2_ASSUME)
 
@@ -407,7 +408,7 @@ PROPS["C02"] = Prop(
     functions=["<backend>::core::local::{unseal, keys, preauth_local}", "<backend>::core::public::{unseal, preauth_public}", "digest::Mac::verify / constant_time compare (real code)"],
     bounds={"quick": "per backend: payload-bit (|m|=2,|f|=1), ciphertext->footer shift, truncation, other key (+ footer->assertion shift where supported); public: payload-bit, message->footer shift, extension",
             "thorough": "all 15 classes x {local, public}; |m|=2 |f|=2 |a|=2"},
-    outside=["simultaneous corruption of several fields (accepted with negligible probability by any MAC)", "messages longer than 2 bytes in the tamper harnesses"],
+    outside=["paseto-v3-aws-lc: verification of public tokens and PKE are not reached (symbolic execution of the FFI wrappers' verify side does not finish, DESIGN.md 7.6); paseto-v1 public tokens and PKE (RSA is not modelled)", "simultaneous corruption of several fields (accepted with negligible probability by any MAC)", "messages longer than 2 bytes in the tamper harnesses"],
     models=L2_MODELS, assumptions=L2_ASSUME)
 
 PROPS["C12"] = Prop(
@@ -482,14 +483,14 @@ PROPS["C05"] = Prop(
     functions=["<backend>::core::pie_wrap::{pie_wrap_key, pie_unwrap_key}", "<backend>::core::pw_wrap::{pw_wrap_key, pw_unwrap_key, get_params, Params::pbkdf}", "<backend>::core::pke::{seal_key, unseal_key}"],
     bounds={"quick": "PIE local key (32 B), PBKW local with default parameters and a 2-byte password, PKE to a generated recipient",
             "thorough": "adds secret keys (48/64 B), empty password, symbolic parameter blocks"},
-    outside=["passwords longer than 2 bytes (they only enter the KDF oracle)", "the real KDFs' cost/behaviour"], models=L2_MODELS, assumptions=L2_ASSUME)
+    outside=["PBKW round trip / tamper / RNG harnesses for paseto-v2, -v4 and -v4-sodium (unresolved engine discrepancy on the zerocopy cost-parameter struct, DESIGN.md 7.2)", "paseto-v3-aws-lc: verification of public tokens and PKE are not reached (symbolic execution of the FFI wrappers' verify side does not finish, DESIGN.md 7.6); paseto-v1 public tokens and PKE (RSA is not modelled)", "passwords longer than 2 bytes (they only enter the KDF oracle)", "the real KDFs' cost/behaviour"], models=L2_MODELS, assumptions=L2_ASSUME)
 
 PROPS["C06"] = Prop(
     "C06", _collect("C06"),
     explanation="From a genuinely produced PIE / PBKW / PKE blob each tamper class must make unwrap/unseal return Err: one symbolic bit anywhere (tag, nonce, salt, parameters, ephemeral key, ciphertext), header relabel local<->secret, another wrapping key / password (same length, longer, shorter) / recipient, truncation, extension.",
     functions=["<backend>::core::{pie_wrap, pw_wrap, pke}::* incl. auth()"],
     bounds={"quick": "per backend: PIE bit + relabel, PBKW bit + other password, PKE bit", "thorough": "all classes"},
-    outside=["relabel to another version's header (same code with another constant; the version prefix is part of the MAC transcript shown by the bit/relabel classes)"],
+    outside=["PBKW round trip / tamper / RNG harnesses for paseto-v2, -v4 and -v4-sodium (unresolved engine discrepancy on the zerocopy cost-parameter struct, DESIGN.md 7.2)", "paseto-v3-aws-lc: verification of public tokens and PKE are not reached (symbolic execution of the FFI wrappers' verify side does not finish, DESIGN.md 7.6); paseto-v1 public tokens and PKE (RSA is not modelled)", "relabel to another version's header (same code with another constant; the version prefix is part of the MAC transcript shown by the bit/relabel classes)"],
     models=L2_MODELS, assumptions=L2_ASSUME)
 
 PROPS["C16"] = Prop(
@@ -497,7 +498,8 @@ PROPS["C16"] = Prop(
     explanation="Fail closed: the RNG model is armed to fail at a chosen draw index of nonce()/random()/pie_wrap_key/pw_wrap_key (both draws)/seal_key; the operation must return Err. Freshness is inherited from the RNG: the nonce field equals the drawn bytes (v3/v4), so distinct draws give distinct nonces for all keys and messages.",
     functions=["<backend>::core::*::{nonce, random, pie_wrap_key, pw_wrap_key, seal_key}"],
     bounds={"quick": "every draw index of each operation (1 or 2 draws)", "thorough": "same"},
-    outside=["the statistical claim that the OS RNG does not repeat over 10^5 calls (not a property of this code)",
+    outside=["PBKW round trip / tamper / RNG harnesses for paseto-v2, -v4 and -v4-sodium (unresolved engine discrepancy on the zerocopy cost-parameter struct, DESIGN.md 7.2)", "PKE RNG failure for the P-384 backends (the ephemeral key is drawn in a rejection loop the engine cannot bound)",
+             "the statistical claim that the OS RNG does not repeat over 10^5 calls (not a property of this code)",
              "draws made inside library models without an error channel (RSA key generation, libsodium random::*)"],
     models=L2_MODELS, assumptions=L2_ASSUME)
 
